@@ -128,11 +128,31 @@ Parse(text) ==
 \* ---- selector resolution and denotation ---------------------------------
 GlobParts(p) == [i \in 1..Len(p) |-> IF p[i] = CH_STAR THEN STAR ELSE p[i]]
 
-\* indices of the detection names a selector pattern refers to
-SelMatches(p, names) ==
+\* A selector pattern refers to a detection name iff it matches it and (the underscore rule) a name that starts with an
+\* underscore is named by a pattern that starts with one.
+PatNames(p, n) == /\ (p = S_them \/ WildMatch(GlobParts(p), n))
+                  /\ (n # <<>> /\ n[1] = CH_US => (p # <<>> /\ p[1] = CH_US))
+\* Names the LIBRARY adds to a rule live in name spaces of their own: the detections of an applied filter are called
+\* _filt_<letters>_<name>, the detection of an added condition _cond_<letters>.  Such a name is referred to only by a
+\* pattern that begins with the same generated prefix (the rewritten patterns of that filter do), and the underscore
+\* rule is applied to what follows the prefix - as it was inside the filter.  A pattern of the rule itself ("1 of _*")
+\* does not reach them, and which letters were drawn makes no difference.
+S_filt == <<95,102,105,108,116,95>>  S_cond == <<95,99,111,110,100,95>>
+RECURSIVE LettersEnd(_, _)
+LettersEnd(t, i) == IF i <= Len(t) /\ IsLower(t[i]) THEN LettersEnd(t, i + 1) ELSE i
+GenPrefix(n) ==       \* <<>>: not a generated name
+    IF HasPrefix(n, S_filt) THEN
+        LET e == LettersEnd(n, 7) IN IF e > 7 /\ e <= Len(n) /\ n[e] = CH_US THEN SubSeq(n, 1, e) ELSE <<>>
+    ELSE IF HasPrefix(n, S_cond) /\ Len(n) > 6 /\ LettersEnd(n, 7) = Len(n) + 1 THEN n
+    ELSE <<>>
+\* indices of the detection names a selector pattern refers to (ns = FALSE: without name spaces - the mechanism before
+\* the repair, kept for the negative control of MC_Filter)
+SelMatchesM(p, names, ns) ==
     {i \in 1..Len(names) :
-        /\ (p = S_them \/ WildMatch(GlobParts(p), names[i]))
-        /\ (names[i] # <<>> /\ names[i][1] = CH_US => (p # <<>> /\ p[1] = CH_US))}
+        LET g == IF ns THEN GenPrefix(names[i]) ELSE <<>> IN
+        IF g = <<>> THEN PatNames(p, names[i])
+        ELSE HasPrefix(p, g) /\ PatNames(SubSeq(p, Len(g) + 1, Len(p)), SubSeq(names[i], Len(g) + 1, Len(names[i])))}
+SelMatches(p, names) == SelMatchesM(p, names, TRUE)
 
 IndexOf(n, names) ==
     LET I == {i \in 1..Len(names) : names[i] = n}
@@ -149,30 +169,32 @@ SetToSortedSeq(S) ==   \* ascending sequence of a finite set of integers
 \* or a status that is not "ok":
 \*   "undefined"  - names a detection that does not exist (an error is required)
 \*   "unspec"     - a selector that matches nothing (the Sigma specification is silent)
-RECURSIVE Resolve(_, _)
-Resolve(a, names) ==
+RECURSIVE ResolveM(_, _, _)
+Resolve(a, names) == ResolveM(a, names, TRUE)
+ResolveM(a, names, ns) ==
     CASE a.k = "id" ->
            (IF IndexOf(a.n, names) = 0 THEN [st |-> "undefined", e |-> Const(FALSE)]
             ELSE [st |-> "ok", e |-> Atom(IndexOf(a.n, names))])
       [] a.k = "sel" ->
-           (LET M == SetToSortedSeq(SelMatches(a.p, names))
+           (LET M == SetToSortedSeq(SelMatchesM(a.p, names, ns))
                 args == [j \in 1..Len(M) |-> Atom(M[j])]
             IN  IF Len(M) = 0 THEN [st |-> "unspec", e |-> Const(FALSE)]
                 ELSE [st |-> "ok", e |-> IF a.q = "all" THEN And(args) ELSE Or(args)])
       [] a.k = "cnot" ->
-           (LET r == Resolve(a.a, names) IN [st |-> r.st, e |-> Not(r.e)])
+           (LET r == ResolveM(a.a, names, ns) IN [st |-> r.st, e |-> Not(r.e)])
       [] OTHER ->
-           (LET l == Resolve(a.l, names)
-                r == Resolve(a.r, names)
+           (LET l == ResolveM(a.l, names, ns)
+                r == ResolveM(a.r, names, ns)
                 st == IF l.st = "undefined" \/ r.st = "undefined" THEN "undefined"
                       ELSE IF l.st = "unspec" \/ r.st = "unspec" THEN "unspec" ELSE "ok"
             IN  [st |-> st, e |-> IF a.k = "cand" THEN And(<<l.e, r.e>>) ELSE Or(<<l.e, r.e>>)])
 
 \* Denotation of condition text over a list of detection names
 \*   [st |-> "ok" | "syntax" | "undefined" | "unspec", e |-> BoolExpr]
-Den(text, names) ==
+DenM(text, names, ns) ==
     LET p == Parse(text) IN
-    IF ~p.ok THEN [st |-> "syntax", e |-> Const(FALSE)] ELSE Resolve(p.ast, names)
+    IF ~p.ok THEN [st |-> "syntax", e |-> Const(FALSE)] ELSE ResolveM(p.ast, names, ns)
+Den(text, names) == DenM(text, names, TRUE)
 
 \* ---- printer ------------------------------------------------------------
 APrec(a) == CASE a.k = "cor" -> 1 [] a.k = "cand" -> 2 [] a.k = "cnot" -> 3 [] OTHER -> 4
